@@ -381,7 +381,16 @@ func (f simFactory) ToRESTMapper() (meta.RESTMapper, error) {
 	gv := schema.GroupVersion{Group: "apiextensions.k8s.io", Version: "v1"}
 	crd := meta.NewDefaultRESTMapper([]schema.GroupVersion{gv})
 	crd.Add(gv.WithKind("CustomResourceDefinition"), meta.RESTScopeRoot)
-	return meta.MultiRESTMapper{base, crd}, nil
+	// the unstructured test kind under two versions of one group (same resource name as its unversioned spelling:
+	// the simulated API server keeps one object whichever version a request names)
+	mappers := meta.MultiRESTMapper{base, crd}
+	for _, v := range []string{"v1", "unlikelyversion"} {
+		tgv := schema.GroupVersion{Group: "apitest", Version: v}
+		tm := meta.NewDefaultRESTMapper([]schema.GroupVersion{tgv})
+		tm.AddSpecific(tgv.WithKind("NamespacedType"), tgv.WithResource("namespacedtype"), tgv.WithResource("namespacedtype"), meta.RESTScopeNamespace)
+		mappers = append(mappers, tm)
+	}
+	return mappers, nil
 }
 
 func (f simFactory) NewBuilder() *resource.Builder {
